@@ -47,31 +47,48 @@ Definition settle (c : N) (s : st) : st :=
   | _ => s
   end.
 
-Definition hstep (s : st) (e : list N) : option (st * list N) :=
-  let ret s' := Some (s', obs s') in
+(* first stage of the codec, shared by the model-side step and the monitors *)
+Inductive pev := PCall (fs : list N) | PStep (a c : N) | PRet (i oc : N) | PCancel.
+Definition parse (e : list N) : option pev :=
   match e with
-  | 1 :: fs =>
+  | 1 :: fs => Some (PCall fs)
+  | [2; a; c] => Some (PStep a c)
+  | [3; i; oc] => Some (PRet i oc)
+  | [4] => Some PCancel
+  | _ => None
+  end%N.
+
+(* decoding: the model event and the select preference; None = not enabled in the model now *)
+Definition decode (s : st) (e : list N) : option (ev * N) :=
+  match parse e with
+  | Some (PCall fs) =>
     match cp s with
-    | CIdle => if forallb (fun f => N.leb f 1) fs then ret (step s (Call (map (N.eqb 1) fs))) else None
+    | CIdle => if forallb (fun f => N.leb f 1) fs then Some (Call (map (N.eqb 1) fs), 2%N) else None
     | _ => None
     end
-  | [2; a; c] =>
+  | Some (PStep a c) =>
     if N.eqb a 0 then
-      (if c_at_gate (cp s) then ret (settle c (step s StepC)) else None)
+      (if c_at_gate (cp s) then Some (StepC, c) else None)
     else
       let i := pred (N.to_nat a) in
       match nth_error (wks s) i with
-      | Some w => if w_at_gate w then ret (settle 2 (step s (StepW i))) else None
+      | Some w => if w_at_gate w then Some (StepW i, 2%N) else None
       | None => None
       end
-  | [3; i; oc] =>
+  | Some (PRet i oc) =>
     match dec_out oc, nth_error (wks s) (N.to_nat i) with
-    | Some o, Some w => match wp w with WInFn => ret (step s (FnReturn (N.to_nat i) o)) | _ => None end
+    | Some o, Some w => match wp w with WInFn => Some (FnReturn (N.to_nat i) o, 2%N) | _ => None end
     | _, _ => None
     end
-  | [4] => if cctx s then None else ret (settle 1 (step s CancelCaller))
-  | _ => None
-  end%N.
+  | Some PCancel => if cctx s then None else Some (CancelCaller, 1%N)
+  | None => None
+  end.
+
+Definition hstep (s : st) (e : list N) : option (st * list N) :=
+  match decode s e with
+  | Some (ev, c) => let s' := settle c (step s ev) in Some (s', obs s')
+  | None => None
+  end.
 
 (* ---------------- monitors (on the implementation's observations only) ---------------- *)
 Record mst := { mfs : list bool;    (* the entries of the call: true = function *)
@@ -92,44 +109,55 @@ Definition r_ent (r : row) : N := snd (fst (snd r)).
 Definition r_cx (r : row) : N := snd (snd r).
 
 Definition mev (m : mst) (e : list N) : mst :=
-  match e with
-  | 1 :: fs => {| mfs := map (N.eqb 1) fs; mouts := map (fun _ => 0) fs; mcanc := mcanc m; mret := mret m |}
-  | [3; i; oc] => {| mfs := mfs m; mouts := set_nth (mouts m) (N.to_nat i) oc; mcanc := mcanc m; mret := mret m |}
-  | [4] => {| mfs := mfs m; mouts := mouts m; mcanc := true; mret := mret m |}
+  match parse e with
+  | Some (PCall fs) => {| mfs := map (N.eqb 1) fs; mouts := map (fun _ => 0%N) fs; mcanc := mcanc m; mret := mret m |}
+  | Some (PRet i oc) => {| mfs := mfs m; mouts := set_nth (mouts m) (N.to_nat i) oc; mcanc := mcanc m; mret := mret m |}
+  | Some PCancel => {| mfs := mfs m; mouts := mouts m; mcanc := true; mret := mret m |}
   | _ => m
-  end%N.
+  end.
+
+(* the six clauses; first = the call's return becomes visible at this step, cret = its result code (0 none) *)
+(* 1: no function is entered twice; when the call returns nil every function has been entered exactly once *)
+Definition cl1 (first : bool) (cret : N) (rows : list row) : bool :=
+  existsb (fun r => N.ltb 1 (r_ent r)) rows
+  || (first && N.eqb cret 1 && existsb (fun r => r_fn r && negb (N.eqb (r_ent r) 1)) rows).
+(* 2: nil only if every function has returned nil before *)
+Definition cl2 (first : bool) (cret : N) (rows : list row) : bool :=
+  first && N.eqb cret 1 && existsb (fun r => r_fn r && negb (N.eqb (r_out r) 1)) rows.
+(* 3: an error result is one some function returned; if a function has returned a non-Canceled error the result is
+      such an error (or Canceled, if the caller's context was cancelled), never nil.  outs = outcome codes returned so far *)
+Definition cl3 (first : bool) (cret : N) (canc : bool) (outs : list N) : bool :=
+  let reals := filter (N.leb 3) outs in
+  first && ((N.leb 3 cret && negb (existsb (N.eqb cret) reals))
+            || (negb (match reals with [] => true | _ => false end) && (N.eqb cret 1 || (N.eqb cret 2 && negb canc)))).
+(* 4: Canceled only if the caller's context was cancelled or some function returned Canceled *)
+Definition cl4 (first : bool) (cret : N) (canc : bool) (outs : list N) : bool :=
+  first && N.eqb cret 2 && negb (canc || existsb (N.eqb 2) outs).
+(* 5: once the call has returned, the context every entered function got is cancelled *)
+Definition cl5 (cret : N) (rows : list row) : bool :=
+  negb (N.eqb cret 0) && existsb (fun r => N.leb 1 (r_ent r) && negb (N.eqb (r_cx r) 1)) rows.
+(* 6: at quiescence (nobody at a gate) the call is not blocked while it could return: all functions finished, or
+      (two or more entries) a non-Canceled error recorded or the caller's context cancelled; a panicking call never returns *)
+Definition cl6 (cst : N) (canc : bool) (nfs : nat) (rows : list row) : bool :=
+  let quiet := negb (N.eqb cst 1) && negb (N.eqb cst 6) && negb (existsb (fun r => N.eqb (r_stat r) 1) rows) in
+  let all_done := forallb (fun r => negb (r_fn r) || N.eqb (r_stat r) 4) rows in
+  let wakecond :=
+    if Nat.leb nfs 1 then all_done
+    else canc || all_done || existsb (fun r => N.eqb (r_stat r) 4 && N.leb 3 (r_out r)) rows in
+  N.eqb cst 9 || (quiet && N.eqb cst 2 && wakecond).
 
 Definition mon (m : mst) (e o : list N) : mst * list (nat * nat) :=
   let m1 := mev m e in
   let cst := nth 0 o 0%N in
   let cret := nth 1 o 0%N in
   let rows : list row := combine (combine (mfs m1) (mouts m1)) (chunk3 (skipn 2 o)) in
-  let first := negb (mret m) && negb (N.eqb cret 0) in        (* the call's return becomes visible at this step *)
-  let reals := filter (N.leb 3) (mouts m1) in                   (* non-Canceled errors returned by functions so far *)
-  (* 1: no function is entered twice; when the call returns nil every function has been entered exactly once *)
-  let c1 := existsb (fun r => N.ltb 1 (r_ent r)) rows
-            || (first && N.eqb cret 1 && existsb (fun r => r_fn r && negb (N.eqb (r_ent r) 1)) rows) in
-  (* 2: nil only if every function has returned nil before *)
-  let c2 := first && N.eqb cret 1 && existsb (fun r => r_fn r && negb (N.eqb (r_out r) 1)) rows in
-  (* 3: an error result is one some function returned; if a function has returned a non-Canceled error the
-        result is such an error (or Canceled, if the caller's context was cancelled), never nil *)
-  let c3 := first && ((N.leb 3 cret && negb (existsb (N.eqb cret) reals))
-                      || (negb (match reals with [] => true | _ => false end)
-                          && (N.eqb cret 1 || (N.eqb cret 2 && negb (mcanc m1))))) in
-  (* 4: Canceled only if the caller's context was cancelled or some function returned Canceled *)
-  let c4 := first && N.eqb cret 2 && negb (mcanc m1 || existsb (N.eqb 2) (mouts m1)) in
-  (* 5: once the call has returned, the context every entered function got is cancelled *)
-  let c5 := negb (N.eqb cret 0) && existsb (fun r => N.leb 1 (r_ent r) && negb (N.eqb (r_cx r) 1)) rows in
-  (* 6: at quiescence the call is not blocked while it could return; a panicking call never returns *)
-  let quiet := negb (N.eqb cst 1) && negb (N.eqb cst 6) && negb (existsb (fun r => N.eqb (r_stat r) 1) rows) in
-  let all_done := forallb (fun r => negb (r_fn r) || N.eqb (r_stat r) 4) rows in
-  let wakecond :=
-    if Nat.leb (length (mfs m1)) 1 then all_done
-    else mcanc m1 || all_done || existsb (fun r => N.eqb (r_stat r) 4 && N.leb 3 (r_out r)) rows in
-  let c6 := N.eqb cst 9 || (quiet && N.eqb cst 2 && wakecond) in
+  let first := negb (mret m) && negb (N.eqb cret 0) in
   let m2 := {| mfs := mfs m1; mouts := mouts m1; mcanc := mcanc m1; mret := mret m || negb (N.eqb cret 0) |} in
-  (m2, (if c1 then [(17, 1)] else []) ++ (if c2 then [(17, 2)] else []) ++ (if c3 then [(17, 3)] else []) ++
-       (if c4 then [(17, 4)] else []) ++ (if c5 then [(17, 5)] else []) ++ (if c6 then [(17, 6)] else [])).
+  (m2, (if cl1 first cret rows then [(17, 1)] else []) ++ (if cl2 first cret rows then [(17, 2)] else []) ++
+       (if cl3 first cret (mcanc m1) (mouts m1) then [(17, 3)] else []) ++
+       (if cl4 first cret (mcanc m1) (mouts m1) then [(17, 4)] else []) ++
+       (if cl5 cret rows then [(17, 5)] else []) ++
+       (if cl6 cst (mcanc m1) (length (mfs m1)) rows then [(17, 6)] else [])).
 
 Definition run_check_ccall (cfg : list N) (evs obss : list (list N)) : list issue :=
   run_check hstep mon init minit evs obss.
